@@ -3,6 +3,7 @@ package main
 import (
 	"errors"
 	"fmt"
+	"time"
 	"go/types"
 	"math"
 	"strconv"
@@ -387,6 +388,20 @@ func init() {
 		return StrV{opq: &opaqueStr{parts: []opaquePart{{kind: 3}}}}
 	}
 	I["(time.Time).String"] = I["(time.Time).Format"]
+	I["time.ParseDuration"] = func(e *Exec, fn *ssa.Function, a []Value, c *Frame) Value {
+		d, err := time.ParseDuration(argStr(e, a[0], "time.ParseDuration"))
+		if err != nil {
+			return TupleV{e.tt.BVConst(0, 64), e.mkError(err.Error())}
+		}
+		return TupleV{e.tt.BVConst(uint64(int64(d)), 64), IfaceV{}}
+	}
+	I["(time.Duration).String"] = func(e *Exec, fn *ssa.Function, a []Value, c *Frame) Value {
+		t := a[0].(*Term)
+		if t.Const {
+			return StrV{s: time.Duration(sext(t.U, 64)).String()}
+		}
+		return StrV{opq: &opaqueStr{parts: []opaquePart{{kind: 3}}}}
+	}
 	I["time.After"] = func(e *Exec, fn *ssa.Function, a []Value, c *Frame) Value { return e.newTimerChan(false) }
 	I["time.Tick"] = func(e *Exec, fn *ssa.Function, a []Value, c *Frame) Value { return e.newTimerChan(true) }
 	mkTimer := func(ticker bool, tname string) intrinsicFn {
